@@ -34,6 +34,7 @@ func runC12(c *Ctx, tier string) {
 	// to itself, so a source a registered lint carries can be named (C13's rule,
 	// evaluated here as well)
 	sourceSwitches(c, r, "source-exhaustive", false)
+	metadataUTF8(c, r, BuildCensus(c))
 	r.Finish()
 }
 
